@@ -179,7 +179,8 @@ type c47W struct {
 	b   strings.Builder
 	// what the spelling actually used (for the evidence counters)
 	usedCDATA, usedCharRef, usedEntity, shadowedD, redeclDefault, usedAposQuote, attrCDEnd bool
-	plain bool // never spell "]]>" literally inside an attribute value
+	// plain: never spell "]]>" literally inside an attribute value
+	plain bool
 }
 
 var c47Prefixes = []string{"D", "D", "d", "a", "b", "ns0", "x", "_", "p1", "ü", "DAV", "lp1", "R"}
@@ -941,8 +942,8 @@ func c47GenValue(rng *rand.Rand, self xml.Name, thorough bool, feat map[string]b
 	case r == 3:
 		feat["long_value"] = true
 		n := 2000 + rng.IntN(60000)
-		if thorough && rng.IntN(10) == 0 {
-			n = 300000 + rng.IntN(900000)
+		if thorough && rng.IntN(40) == 0 {
+			n = 200000 + rng.IntN(800000)
 		}
 		var b strings.Builder
 		for b.Len() < n {
@@ -1320,16 +1321,18 @@ func (x *c47Run) applyPatchBody(p string, pt *c47Patch, body string, w *c47W) (n
 		return false, sig
 	}
 
-	if code != 207 && p != "/" && w.attrCDEnd {
+	if code == 400 && w.attrCDEnd {
 		// Find out whether the refusal is about the spelling: the request was refused as a
 		// whole, so the same document may be sent again with "]]>" escaped in attributes.
 		body2, _ := c47DocOpt(x.rng, c47PatchDoc(pt), true)
-		if code2, resp2 := x.do("PROPPATCH", p, "", body2); code2 == 207 {
-			x.viol("proppatch-rejected:cdata-end-marker-in-attribute-value", "well-formed PROPPATCH on %s answered %d %q; the same document with ]]&gt; instead of ]]> inside attribute values is accepted\nrequest:\n%s", p, code, strings.TrimSpace(resp), c47Cut(body, 2500))
+		if code2, resp2 := x.do("PROPPATCH", p, "", body2); code2 != 400 {
+			x.viol("proppatch-rejected:cdata-end-marker-in-attribute-value", "well-formed PROPPATCH on %s answered %d %q; the same document with ]]&gt; instead of ]]> inside attribute values is read without complaint (answer %d)\nrequest:\n%s", p, code, strings.TrimSpace(resp), code2, c47Cut(body, 2500))
 			body, code, resp = body2, code2, resp2
 		}
 	}
-	if code != 207 && p == "/" {
+	if code != 207 && code != 400 && p == "/" {
+		// (400 is the answer to a request that could not be read and is judged below like on
+		// any other resource.)
 		// memFS refuses to open its root for writing, so the handler cannot patch it. Which
 		// resources accept dead properties is not what the statement is about: counted, the
 		// PROPFIND that follows verifies that nothing was stored.
@@ -1901,10 +1904,10 @@ func TestVerif_C47(t *testing.T) {
 		r.EvalHash(nt, sig)
 	})
 
-	r.CasesParallel("single", r.N(2400, 24000), 0, single)
-	r.CasesParallel("history", r.N(300, 3200), 0, history)
+	r.CasesParallel("single", r.N(2400, 16000), 0, single)
+	r.CasesParallel("history", r.N(300, 1600), 0, history)
 
-	for _, code := range []string{"400", "403", "405", "500"} {
+	for _, code := range []string{"403", "405", "409", "423", "500"} {
 		if n := r.EventCount("proppatch_on_root_refused_" + code); n > 0 {
 			r.Note("PROPPATCH on the root collection of memFS was answered %s %d times (memFS does not open its root for writing, so Handler cannot patch it); which resources accept dead properties is outside the statement: counted, not judged, and each refusal was followed by a PROPFIND showing that nothing was stored", code, n)
 		}
